@@ -341,6 +341,7 @@ def handle (st : DState) (j : Json) : Except String (DState × Json) := do
       match k with
       | "const" => pure (Topo.Decl.const n (← getStr d "value"))
       | "typedef" => pure (Topo.Decl.typedef n (← getStr d "type"))
+      | "include" => pure (Topo.Decl.incl n)
       | "enum" =>
         let ms ← (← getArr d "members").toList.mapM (fun m => do
           let a ← m.getArr?
